@@ -15,6 +15,10 @@
       exploration" and "e is reachable in its iteration".  [p_sl_RunOK2] /
       [p_sl_RunOK]: the hypotheses of run_goodAt2 / run_goodAt hold for every
       such path, i.e. those theorems are not vacuous.
+   5. The same for AtomicRun3.p_mp, which contains an RMW on atomic 0:
+      [p_mp_all_good], [p_mp_atomicity], [p_mp_coherence]; [e_mp_rmw_store] /
+      [p_mp_atomicity_instance]: a reachable state with a live RMW store, at
+      which the atomicity statement is instantiated.
    4. [side_instance]: one concrete reachable access (thread 1's load in the
       first iteration) at which SideOK holds, with the replay clause
       instantiated on a non-empty candidate list. *)
@@ -327,6 +331,99 @@ Proof.
            (conj e17_SideOK e17_concrete))))).
 Qed.
 
+(* ================================================================== *)
+(* 5. p_mp: the same with an RMW                                        *)
+(* ================================================================== *)
+(* AtomicRun3.p_mp: main stores 1 to atomic 0 (relaxed), thread 1 does
+   fetch_add(10, AcqRel) on atomic 0; both also load it.  Atomic 0 is the one
+   the RMW acts on. *)
+Lemma p_mp_ring_checked :
+  explore_chk (ring_chk 0) 2000 2000 p_mp (initial_path cfgT) true = (true, true).
+Proof. vm_compute. reflexivity. Qed.
+
+Lemma p_mp_max_threads : max_threads (p_cfg p_mp) <= MAX_THREADS.
+Proof. vm_compute. lia. Qed.
+
+Lemma p_mp_atomic0 : forall pa, exists s0, get_atomic (init_exec p_mp pa) 0 = Some s0.
+Proof. intros pa. eexists. reflexivity. Qed.
+
+Theorem p_mp_RunOK2 : forall pa,
+  Explored 2000 p_mp (initial_path cfgT) pa -> RunOK2 p_mp pa 0.
+Proof.
+  intros pa Hex. apply RunOK3_RunOK2.
+  - apply RecordedOK_ReplayOK.
+    exact (proj1 (explore_rec_sound 0 2000 2000 p_mp _ 0 0 72 181 p_mp_checked pa Hex)).
+  - exact (ring_checked_RunOK3 0 2000 2000 p_mp _ pa p_mp_ring_checked Hex).
+Qed.
+
+Theorem p_mp_RunOK : forall pa,
+  Explored 2000 p_mp (initial_path cfgT) pa -> RunOK p_mp pa 0.
+Proof. intros pa Hex. exact (RunOK2_RunOK p_mp pa 0 p_mp_max_threads (p_mp_RunOK2 pa Hex)). Qed.
+
+Theorem p_mp_all_good : forall pa e,
+  Explored 2000 p_mp (initial_path cfgT) pa -> steps (init_exec p_mp pa) e -> GoodAt 0 e.
+Proof.
+  intros pa e Hex Hs. destruct (p_mp_atomic0 pa) as [s0 Hs0].
+  exact (run_goodAt2 p_mp pa 0 s0 e p_mp_max_threads Hs0 (p_mp_RunOK2 pa Hex) Hs).
+Qed.
+
+Theorem p_mp_atomicity : forall pa e s r sl sid,
+  Explored 2000 p_mp (initial_path cfgT) pa -> steps (init_exec p_mp pa) e ->
+  get_atomic e 0 = Some s -> r < at_cnt s -> st_rmw_src (get_store s r) = Some (sl, sid) ->
+  sl < at_cnt s /\ vv_lt (mo s sl) (mo s r) = true /\
+  forall x, x < at_cnt s -> vv_lt (mo s sl) (mo s x) && vv_lt (mo s x) (mo s r) = false.
+Proof.
+  intros pa e s r sl sid Hex Hs. destruct (p_mp_atomic0 pa) as [s0 Hs0].
+  exact (run_atomicity2 p_mp pa 0 s0 e s r sl sid p_mp_max_threads Hs0 (p_mp_RunOK2 pa Hex) Hs).
+Qed.
+
+Theorem p_mp_coherence : forall pa e e' s t i j,
+  Explored 2000 p_mp (initial_path cfgT) pa ->
+  steps (init_exec p_mp pa) e -> steps e e' ->
+  get_atomic e 0 = Some s -> t < MAX_THREADS -> i < at_cnt s -> j < at_cnt s ->
+  vv_lt (mo s i) (mo s j) = true ->
+  is_seen_by_current (st_seen (get_store s j)) (caus_of e t) = true ->
+  exists s', get_atomic e' 0 = Some s' /\
+    (forall ly o l, match_load_to_stores s' t (vv_inc (caus_of e' t) t) ly o = Some l -> ~ In i l) /\
+    (forall l, match_rmw_to_stores s' = Some l -> ~ In i l).
+Proof.
+  intros pa e e' s t i j Hex. destruct (p_mp_atomic0 pa) as [s0 Hs0].
+  exact (CoRR_CoWR_steps2 p_mp pa 0 s0 e e' s t i j p_mp_max_threads Hs0 (p_mp_RunOK2 pa Hex)).
+Qed.
+
+(* the end state of the first iteration holds a live RMW store: slot 2 of atomic 0
+   is the store half of the fetch_add, its source is slot 1 *)
+Definition e_mp : exec := fst (run 2000 (init_exec p_mp (initial_path cfgT))).
+
+Lemma e_mp_reachable : steps (init_exec p_mp (initial_path cfgT)) e_mp.
+Proof.
+  unfold e_mp.
+  assert (H : snd (run 2000 (init_exec p_mp (initial_path cfgT))) = IterDone) by (vm_compute; reflexivity).
+  destruct (run 2000 (init_exec p_mp (initial_path cfgT))) as [e r] eqn:Hr. cbn [fst snd] in *. subst r.
+  apply (run_steps 2000 _ e IterDone Hr). left. reflexivity.
+Qed.
+
+Lemma e_mp_rmw_store :
+  exists s sid, get_atomic e_mp 0 = Some s /\ at_cnt s = 3 /\
+                st_rmw_src (get_store s 2) = Some (1, sid).
+Proof. do 2 eexists. split; [vm_compute; reflexivity|]. split; vm_compute; reflexivity. Qed.
+
+(* so p_mp_atomicity has an instance: in a reachable state, a live RMW store
+   sits directly after its source in the modification order *)
+Example p_mp_atomicity_instance :
+  exists s sid,
+    steps (init_exec p_mp (initial_path cfgT)) e_mp /\
+    get_atomic e_mp 0 = Some s /\ 2 < at_cnt s /\ st_rmw_src (get_store s 2) = Some (1, sid) /\
+    1 < at_cnt s /\ vv_lt (mo s 1) (mo s 2) = true /\
+    forall x, x < at_cnt s -> vv_lt (mo s 1) (mo s x) && vv_lt (mo s x) (mo s 2) = false.
+Proof.
+  destruct e_mp_rmw_store as (s & sid & Hs & Hc & Hsrc). exists s, sid.
+  assert (H2 : 2 < at_cnt s) by lia.
+  destruct (p_mp_atomicity _ e_mp s 2 1 sid (Explored_first 2000 p_mp _) e_mp_reachable Hs H2 Hsrc)
+    as (A & B & C).
+  auto 10 using e_mp_reachable.
+Qed.
+
 Print Assumptions explore_chk_sound.
 Print Assumptions ring_checked_RunOK3.
 Print Assumptions p_sl_ring_checked.
@@ -337,3 +434,11 @@ Print Assumptions p_sl_atomicity.
 Print Assumptions p_sl_coherence.
 Print Assumptions p_sl_check_all_good.
 Print Assumptions side_instance.
+Print Assumptions p_mp_ring_checked.
+Print Assumptions p_mp_RunOK2.
+Print Assumptions p_mp_RunOK.
+Print Assumptions p_mp_all_good.
+Print Assumptions p_mp_atomicity.
+Print Assumptions p_mp_coherence.
+Print Assumptions e_mp_rmw_store.
+Print Assumptions p_mp_atomicity_instance.
